@@ -283,9 +283,12 @@ func (ex *Exec) selectOp(fr *frame, in *ssa.Select) Value {
 	rok := false
 	if len(rs) > 0 {
 		idx = rs[0]
-		if len(rs) > 1 && ex.X.SchedExplore {
-			// Go picks a ready case at random: every choice is a legal behaviour
-			idx = rs[ex.schedChoice(len(rs))]
+		if len(rs) > 1 && ex.X.SchedExplore && ex.sch.switches < ex.X.MaxSwitches {
+			// Go picks a ready case at random: every choice is a legal behaviour (delay-bounded)
+			if k := ex.schedChoice(len(rs)); k != 0 {
+				ex.sch.switches++
+				idx = rs[k]
+			}
 		}
 		st := in.States[idx]
 		c := ex.get(fr, st.Chan).(*Chan)
